@@ -26,7 +26,8 @@ RULE = (
     "generated episode script, learning_starts, delays, tau, gradient steps, batch size, seeds, target "
     "supplied or None; the supplied targets are fresh clones of the online networks or (target_offset, "
     "~40 % of the cases of every routine) clones with every parameter leaf changed (0.5*x + c), as a caller "
-    "holds them after earlier training; MR.Q additionally as two calls, the second continuing exactly on a "
+    "holds them after earlier training; in 40 % of the histories of the routines with two target arguments only "
+    "one of them is supplied; MR.Q additionally as two calls, the second continuing exactly on a "
     "target-period boundary with what the first returned (split); the timeline starts with the state handed "
     "to the routine; non-trivial = at least 2 observed target updates with at least one online update "
     "between them. Distinct = distinct canonical case."
@@ -675,6 +676,11 @@ def history_cases(algo):
         cfg["target_offset"] = draw(st.sampled_from([False, False, False, True, True]))
         if cfg["target_offset"]:
             cfg["twin"] = False  # the twin is defined for targets that start as clones only
+        if algo in ("ddpg", "td3", "td3_lap", "td7", "mrq"):
+            # the two optional target arguments are independent: only one of them supplied
+            cfg["supply_only"] = draw(st.sampled_from([None, "first", None, "second", None]))
+            if cfg["supply_only"]:
+                cfg["twin"] = False
         if algo == "mrq":
             # two calls: the continuation starts exactly on a target-period boundary
             # ((global_step - learning_starts) % target_delay == 0) with everything the first call returned
@@ -701,6 +707,8 @@ def simplify_history(case):
         return  # other candidates would move the boundary: they apply to the single-call form
     if c.get("twin"):
         yield dict(c, twin=False)
+    if c.get("supply_only"):
+        yield dict(c, supply_only=None)
     if c.get("target_offset"):
         yield dict(c, target_offset=False)
     if c.get("global_step", 0) > 0 and c["total_timesteps"] - c["global_step"] >= 1:
@@ -758,6 +766,8 @@ def make_run_history(algo):
         if cfg.get("global_step", 0) > 0:
             labels.append("continued")
         labels.append("targets=offset" if cfg.get("target_offset") else "targets=clones")
+        if cfg.get("supply_only"):
+            labels.append("one-target-supplied")
         if cfg.get("split"):
             labels.append("continued-on-period-boundary")
         if algo in ("nature_dqn", "ddqn", "per"):
